@@ -189,6 +189,12 @@ func (n *node[T]) clean(prefix string) {
 
 // 从子节点中查找与当前路径匹配的节点，若找不到，则返回 nil。
 func (n *node[T]) matchChildren(ctx *types.Context) *node[T] {
+	// 路径已经完全匹配且当前节点存在处理函数，则当前节点优先于可以匹配空值的子节点，
+	// 比如 /posts/ 优先于 /posts/{id}，否则 /posts/ 将永远无法被访问。
+	if len(ctx.Path) == 0 && n.size() > 0 {
+		return n
+	}
+
 	if len(n.indexes) > 0 && len(ctx.Path) > 0 { // 普通字符串的匹配
 		child := n.children[n.indexes[ctx.Path[0]]]
 		if child == nil {
@@ -228,10 +234,6 @@ LOOP:
 		}
 	}
 
-	// 没有子节点匹配，len(p.Path)==0，且子节点不为空，可以判定与当前节点匹配。
-	if len(ctx.Path) == 0 && n.size() > 0 {
-		return n
-	}
 	return nil
 }
 
